@@ -387,6 +387,28 @@ def ackEquiv (merged seq : List Ack) : Bool :=
   merged.length == seq.length && merged.all Ack.isSuccess && seq.all Ack.isSuccess &&
   merged.all (fun a => a.matchId == (seq.getLast?.bind Ack.matchId))
 
+/-- along one-at-a-time processing the follower's last index never moves backwards (no request truncates
+    a tail that an earlier request of the queue left in place). -/
+def noShrink (s : FState) : List (Req × Nat) → Bool
+  | [] => true
+  | (r, _) :: rest => decide (s.log.lastIdx ≤ (stepReq s r).1.log.lastIdx) && noShrink (stepReq s r).1 rest
+
+/-- the last request of the queue carries entries, or no request so far carried any, or the log it meets
+    (one-at-a-time processing) ends exactly at its prev index. `hb` = "only heartbeats so far". -/
+def ackAnchored (s : FState) (hb : Bool) : List (Req × Nat) → Bool
+  | [] => true
+  | [(r, _)] => !r.ents.isEmpty || hb || decide (s.log.lastIdx ≤ r.prev)
+  | (r, _) :: rest => ackAnchored (stepReq s r).1 (hb && r.ents.isEmpty) rest
+
+/-- all requests merged into one (the loop of `merge_append_entries` with every test passing). -/
+def mergeAll (acc : Req) : List (Req × Nat) → Req
+  | [] => acc
+  | (r, _) :: rest => mergeAll (mergeReq acc r) rest
+
+def sumSenders : List (Req × Nat) → Nat
+  | [] => 0
+  | (_, k) :: rest => k + sumSenders rest
+
 /-- C07: what the leader's log looks like to the follower-side theorems. -/
 def cutFrom (ldr : List Entry) (r : Req) : Bool :=
   r.contig && r.ents.all (fun e => findE ldr e.index == some e) &&
